@@ -253,10 +253,40 @@ type cloud struct {
 	sent   int64
 	recv   int64
 	seen   map[int64]int64 // goroutine -> total it got from its last GetPortMapping
+
+	// faults and delays of cloud control (the storage behind it unreachable for a moment / slow)
+	failNext atomic.Bool    // schedule-driven: the call released next fails
+	failOnce atomic.Value   // free-running: "get" | "upd": the first such call fails - unless made by goroutine spare
+	spare    atomic.Int64   // ... (Start's own final report, after which nobody would try again)
+	hold     chan struct{}  // non-nil: GetPortMapping does not return before this is closed
+	entered  chan struct{}  // closed when the first call is being held
+	holdOnce sync.Once
+}
+
+var errCloud = errors.New("verif: cloud control unavailable")
+
+// fails: is this call (kind "get" | "upd") to fail?
+func (c *cloud) fails(kind string) bool {
+	if c.failNext.CompareAndSwap(true, false) {
+		return true
+	}
+	if k, _ := c.failOnce.Load().(string); k == kind && goid() != c.spare.Load() {
+		return c.failOnce.CompareAndSwap(kind, "")
+	}
+	return false
 }
 
 func (c *cloud) GetPortMapping(id string) (*models.PortMapping, error) {
 	c.s.Gate("get", nil)
+	if c.hold != nil {
+		c.holdOnce.Do(func() { close(c.entered) })
+		<-c.hold
+	}
+	if c.fails("get") {
+		c.rec.add(fw.Event{"ev": "Fault", "what": "GetPortMapping"})
+		c.s.After()
+		return nil, errCloud
+	}
 	c.mu.Lock()
 	pm := &models.PortMapping{ID: id}
 	pm.TrafficStats.BytesSent = c.sent
@@ -269,6 +299,11 @@ func (c *cloud) GetPortMapping(id string) (*models.PortMapping, error) {
 
 func (c *cloud) UpdatePortMappingStats(id string, ts *stats.TrafficStats) error {
 	c.s.Gate("upd", nil)
+	if c.fails("upd") { // fails before taking effect
+		c.rec.add(fw.Event{"ev": "Fault", "what": "UpdatePortMappingStats"})
+		c.s.After()
+		return errCloud
+	}
 	c.mu.Lock()
 	total := ts.BytesSent + ts.BytesReceived
 	delta := total - c.seen[goid()]
@@ -288,11 +323,18 @@ func (c *cloud) GetClientPortMappings(clientID int64) ([]*models.PortMapping, er
 // ---- client tunnel doubles -----------------------------------------------------------------------
 
 type tclient struct {
-	rec *rec
+	rec     *rec
+	hold    chan struct{} // non-nil: the control connection is busy - the notification stays blocked until this is closed
+	entered chan struct{} // closed when the first notification is in flight
+	once    sync.Once
 }
 
 func (c *tclient) SendTunnelCloseNotify(target int64, tunnelID, mappingID, reason string) error {
 	c.rec.add(fw.Event{"ev": "Ran", "h": "notify"})
+	if c.hold != nil {
+		c.once.Do(func() { close(c.entered) })
+		<-c.hold
+	}
 	return nil
 }
 
